@@ -15,22 +15,24 @@ Lemma layout_then_render ws cols rows : 0 <= cols < 65536 -> 0 <= rows < 65536 -
         sc_cols sc = cols /\ sc_rows sc = rows /\
         forall x y, 0 <= x < cols -> 0 <= y < rows ->
           screen_get sc x y =
-            Some (match shown stable_perm s 0 0 x y with Some c => c | None => wblank end)
+            Some (match (if in_rect 0 0 (s_w s) (s_h s) x y then shown stable_perm s 0 0 x y else None) with
+                  | Some c => c | None => wblank end)
   end.
 Proof.
   intros Hc Hr. pose proof (draw_contract_all ws cols rows Hc Hr) as Hd. unfold draw_contract in Hd.
   unfold paint_run. destruct (draw ws cols rows) as [|s]; [split; [exact Hd | reflexivity]|].
   destruct Hd as (Hwf & _ & _). unfold render.
-  destruct (render_gen_spec stable_perm s Hwf [(0, 0, cols, rows)] ltac:(discriminate)) as (ps & E & Hps).
+  destruct (render_gen_spec stable_perm s Hwf (app_window cols rows s) ltac:(unfold app_window, win_new; discriminate)) as (ps & E & Hps).
   rewrite E.
   destruct (screen_apply_spec ps (new_screen wblank cols rows) (new_screen_wf wblank cols rows ltac:(lia) ltac:(lia)))
     as (sc & E2 & Hscwf & Ec & Er & Hget).
   rewrite E2. exists sc. cbn [new_screen sc_cols sc_rows] in Ec, Er, Hget.
   split; [reflexivity|]. split; [exact Hscwf|]. split; [exact Ec|]. split; [exact Er|].
-  intros x y Hx Hy. rewrite (Hget x y Hx Hy), Hps. cbn [win_org win_clip].
-  replace (in_rect (0 + 0) (0 + 0) cols rows x y && true) with true by (unfold in_rect; lia).
-  replace (0 + 0) with 0 by lia.
-  destruct (shown stable_perm s 0 0 x y); [reflexivity|].
+  intros x y Hx Hy. rewrite (Hget x y Hx Hy), Hps.
+  pose proof (wf_tree_node s Hwf) as (Hsw & Hsh & _).
+  destruct (app_window_clip cols rows s x y ltac:(lia) ltac:(lia)) as [-> ->].
+  replace (in_rect 0 0 cols rows x y) with true by (unfold in_rect; lia). cbn [andb].
+  destruct (if in_rect 0 0 (s_w s) (s_h s) x y then shown stable_perm s 0 0 x y else None); [reflexivity|].
   unfold screen_get, new_screen; cbn [sc_buf].
   rewrite zget_zrepeat by lia. apply zget_zrepeat; lia.
 Qed.
